@@ -2531,7 +2531,8 @@ private:
 
       for(i = set.num() - 1; i >= 0; --i)
       {
-         const SVectorBase<R>& vec = set.rowVector(i);
+         // the stored copy: exact zeros of the argument are not stored and must not be counted
+         const SVectorBase<R>& vec = (&set != this) ? rowVector(oldRowNumber + i) : set.rowVector(i);
 
          for(j = vec.size() - 1; j >= 0; --j)
          {
@@ -2789,7 +2790,8 @@ private:
 
       for(i = set.num() - 1; i >= 0; --i)
       {
-         const SVectorBase<R>& vec = set.colVector(i);
+         // the stored copy: exact zeros of the argument are not stored and must not be counted
+         const SVectorBase<R>& vec = (&set != this) ? colVector(oldColNumber + i) : set.colVector(i);
 
          for(j = vec.size() - 1; j >= 0; --j)
          {
